@@ -395,7 +395,7 @@ func layouts(thorough bool) (small []layout, big []layout) {
 
 func main() {
 	run := report.New("C16")
-	run.SetBudget(5*60e9, 40*60e9)
+	run.SetBudget(5*60e9, 20*60e9)
 	small, big := layouts(run.Thorough())
 	shard.Run(run, 0, nil, func(s shard.Info, out *shard.Out) {
 		for i, l := range small {
